@@ -1,4 +1,4 @@
-import TextxVerif.Proofs.RrelSyntax
+import TextxVerif.Proofs.RrelSyntaxRange
 /-!
 # C12 — printed RREL expressions re-parse to equivalent expressions
 
@@ -37,6 +37,26 @@ theorem C12_roundtrip_seq (cc : CC) (hs : cc.Sane) (s : Seq) (hw : wfSeq cc s = 
     (hn : depthPaths s < n) (rest : Str) (hr : HeadP stopSeq rest) :
     parseSeq cc n (printSeq s ++ rest) = some (s, rest) :=
   good_parseSeq hs n s rest hn hw hr
+
+/-- **Parser range.** Everything `rrel.parse` returns satisfies the shape conditions of
+`wfExpr`, with fixed names that have a notation or end with a backslash (`lexable`). -/
+theorem C12_parse_range (cc : CC) (s : Str) (e : Expr) (hp : parse cc s = some e) :
+    gwfExpr cc lexable e = true :=
+  parse_sound hp
+
+/-- **Round trip of parsed expressions** (no well-formedness hypothesis): for every
+text `s` the parser accepts, the printed form of the result parses back to the same
+expression, provided no fixed name of it ends with a backslash.
+`_partial`: the proviso cannot be dropped — `C12_trailing_backslash_false` (open
+known finding C12-KF1). -/
+theorem C12_parsed_partial (cc : CC) (hs : cc.Sane) (s : Str) (e : Expr) (hp : parse cc s = some e)
+    (hb : ∀ f ∈ fixedNames e, endsWithBackslash f = false) : parse cc (printExpr e) = some e :=
+  C12_roundtrip cc hs e (wfExpr_of_lexable (parse_sound hp) hb)
+
+/-- `wfExpr` is not narrower than the language: every well-formed tree is the parse of some text. -/
+theorem C12_wf_in_range (cc : CC) (hs : cc.Sane) (e : Expr) (hw : wfExpr cc e = true) :
+    ∃ s, parse cc s = some e :=
+  ⟨printExpr e, C12_roundtrip cc hs e hw⟩
 
 /-- the ASCII classification used by the driver satisfies the hypothesis -/
 theorem asciiCC_sane : asciiCC.Sane := ⟨by decide⟩
@@ -77,6 +97,8 @@ theorem C12_trailing_backslash_false :
   ⟨by rfl, by rfl, by decide⟩
 
 /-! ## non-vacuity -/
+
+example : fixedNames wBackslash = [['a', '\\'], ['b']] := by decide
 
 /-- `+mp:..a.(~b,'x y'~c)*.parent(T),(d)` -/
 def sample : Expr :=
